@@ -299,6 +299,41 @@ def check_anns(res, tier, seed):
                            "proved" if good else ("undecided" if undecided else "refuted"), witness=wit,
                            reason=f"param_dims={pd}, network needs {nparams}"))
             res.append(Res(qn, "bounds", "generated-indices", P13, "proved" if inb else "refuted", witness=wit))
+        # ---- call history: make_ann memoises what it generates.  A sequence of requests that differ in one component
+        # only (the cache is left alone here) must each get the requested network: declared dimensions, parameter count
+        # and the value of every output, run with arrays sized from the *request* (NUMBA_BOUNDSCHECK=1 under ./check)
+        import math as _m
+        hist = [(3, 2, [2]), (3, 1, [2]), (2, 1, [2]), (2, 1, [2, 2]), (3, 1, [2]), (3, 3, [2]), (2, 2, []), (2, 1, []), (3, 1, []),
+                (2, 1, [3]), (2, 1, [3, 1]), (2, 3, [3])]
+        for (sd, cd, layers) in hist:
+            qn = f"{CT}ann:make_ann/history({sd},{cd},{layers})"
+            ssym = [sp.Symbol(f"s{i}", real=True) for i in range(sd)]
+            psym = [sp.Symbol(f"p{i}", real=True) for i in range(600)]
+            want, nparams = ann_reference(sd, cd, layers, ssym, psym)
+            wit, verdict = None, "proved"
+            try:
+                ctrl = ann.make_ann(sd, cd, list(layers))
+                dims = (ctrl.state_dims, ctrl.control_dims, ctrl.param_dims)
+                if dims != (sd, cd, nparams):
+                    verdict = "refuted"
+                    wit = {"request": [sd, cd, list(layers)], "returned (state_dims, control_dims, param_dims)": list(dims),
+                           "expected": [sd, cd, nparams], "requests_before": [list(map(str, h)) for h in hist[:hist.index((sd, cd, layers))]]}
+                else:
+                    st = [rng.uniform(-1.5, 1.5) for _ in range(sd)]
+                    pr = [rng.uniform(-1.5, 1.5) for _ in range(nparams)]
+                    out = np.full(cd, np.nan)
+                    ctrl.controller(np.array(st), 0.0, np.array(pr), out)
+                    sub = dict(zip(ssym + psym[:nparams], st + pr))
+                    exp_ = [float(w.subs(sub)) for w in want]
+                    if not all(_m.isfinite(o) and abs(o - e) <= 1e-9 * max(1.0, abs(e)) for o, e in zip(out.tolist(), exp_)):
+                        verdict = "refuted"
+                        wit = {"request": [sd, cd, list(layers)], "state": st, "params": pr, "real_out": out.tolist(), "expected_out": exp_}
+            except Exception as ex:     # noqa: BLE001  (an out-of-range access raises IndexError under NUMBA_BOUNDSCHECK=1)
+                verdict = "refuted"
+                wit = {"request": [sd, cd, list(layers)], "raised": repr(ex)}
+            res.append(Res(qn, "post", "requested-network-after-earlier-requests", P16 | P13, verdict, witness=wit,
+                           reason="the controller returned for a request is the requested network, whatever was requested before",
+                           backend="run"))
         return nprog
     finally:
         cg.CodeGenerator.build = orig
